@@ -46,6 +46,8 @@ func exprString(tp *typedPkg, e ast.Expr) string {
 type orderSite struct {
 	Pkg, File, Func, Kind, Expr string
 	Line                        int
+	Body                        string // shape of the loop body / of the use of the key list
+	Sorted                      bool   // a sort call follows in the same function
 }
 
 func genMapRange(repo string) (string, error) {
@@ -66,13 +68,21 @@ func genMapRange(repo string) (string, error) {
 					continue
 				}
 				fn := funcName(fd)
+				first := len(sites)
+				var nodes []ast.Node
 				ast.Inspect(fd, func(n ast.Node) bool {
+					before := len(sites)
+					defer func() {
+						for k := before; k < len(sites); k++ {
+							nodes = append(nodes, n)
+						}
+					}()
 					switch v := n.(type) {
 					case *ast.RangeStmt:
 						tv, ok := tp.info.Types[v.X]
 						if ok && tv.Type != nil {
 							if _, isMap := tv.Type.Underlying().(*types.Map); isMap {
-								sites = append(sites, orderSite{short, tp.names[fi], fn, "range-map", exprString(tp, v.X), tp.fset.Position(v.Pos()).Line})
+								sites = append(sites, orderSite{short, tp.names[fi], fn, "range-map", exprString(tp, v.X), tp.fset.Position(v.Pos()).Line, "", false})
 							}
 						}
 					case *ast.CallExpr:
@@ -86,7 +96,7 @@ func genMapRange(repo string) (string, error) {
 								if len(v.Args) > 0 {
 									arg = exprString(tp, v.Args[0])
 								}
-								sites = append(sites, orderSite{short, tp.names[fi], fn, "maps." + se.Sel.Name, arg, tp.fset.Position(v.Pos()).Line})
+								sites = append(sites, orderSite{short, tp.names[fi], fn, "maps." + se.Sel.Name, arg, tp.fset.Position(v.Pos()).Line, "", false})
 								return true
 							}
 							if x.Name == "proto" && se.Sel.Name == "RangeExtensions" {
@@ -94,7 +104,7 @@ func genMapRange(repo string) (string, error) {
 								if len(v.Args) > 0 {
 									arg = exprString(tp, v.Args[0])
 								}
-								sites = append(sites, orderSite{short, tp.names[fi], fn, "proto.RangeExtensions", arg, tp.fset.Position(v.Pos()).Line})
+								sites = append(sites, orderSite{short, tp.names[fi], fn, "proto.RangeExtensions", arg, tp.fset.Position(v.Pos()).Line, "", false})
 								return true
 							}
 						}
@@ -104,13 +114,16 @@ func genMapRange(repo string) (string, error) {
 							if ok && tv.Type != nil {
 								ts := types.TypeString(tv.Type, qualifier)
 								if ts == "protoreflect.Message" || ts == "protoreflect.Map" {
-									sites = append(sites, orderSite{short, tp.names[fi], fn, ts + ".Range", exprString(tp, se.X), tp.fset.Position(v.Pos()).Line})
+									sites = append(sites, orderSite{short, tp.names[fi], fn, ts + ".Range", exprString(tp, se.X), tp.fset.Position(v.Pos()).Line, "", false})
 								}
 							}
 						}
 					}
 					return true
 				})
+				for k, nd := range nodes {
+					sites[first+k].Body, sites[first+k].Sorted = siteShape(tp, fd, nd)
+				}
 			}
 		}
 	}
@@ -137,7 +150,144 @@ func genMapRange(repo string) (string, error) {
 	}
 	sb.WriteString(strings.Join(rows, ";\n"))
 	sb.WriteString("\n].\n")
+	sb.WriteString("(* what each of them does with the elements: the shape of the loop body (statement kinds in order: mapset = assignment\n")
+	sb.WriteString("   to a map element, append, assign, call:<callee>, if(<cond>){...}, return, continue, break, loop{...}; for a key-list call\n")
+	sb.WriteString("   the expression it is an argument of; `dead:` = inside `if false`), and whether a sort call follows in the same function *)\n")
+	sb.WriteString("Definition bodies : list ((string * string * string * string * string) * string * bool) := [\n")
+	rows = nil
+	for _, s := range sites {
+		rows = append(rows, fmt.Sprintf("  ((%s, %s, %s, %s, %s), %s, %s)", coqStr(s.Pkg), coqStr(s.File), coqStr(s.Func), coqStr(s.Kind), coqStr(s.Expr), coqStr(s.Body), coqBool(s.Sorted)))
+	}
+	sb.WriteString(strings.Join(rows, ";\n"))
+	sb.WriteString("\n].\n")
 	return sb.String(), nil
+}
+
+// siteShape describes what an unordered iteration does with its elements.
+func siteShape(tp *typedPkg, fd *ast.FuncDecl, site ast.Node) (string, bool) {
+	var stack []ast.Node
+	found := false
+	walkWithStack(fd, func(n ast.Node, st []ast.Node) {
+		if n == site && !found {
+			found = true
+			stack = append([]ast.Node{}, st...)
+		}
+	})
+	dead := false
+	for i, a := range stack {
+		if is, ok := a.(*ast.IfStmt); ok {
+			if id, ok := is.Cond.(*ast.Ident); ok && id.Name == "false" && i+1 < len(stack) && stack[i+1] == ast.Node(is.Body) {
+				dead = true
+			}
+		}
+	}
+	var shape string
+	switch v := site.(type) {
+	case *ast.RangeStmt:
+		shape = blockShape(tp, v.Body.List)
+	case *ast.CallExpr:
+		// X.Range(func...) / proto.RangeExtensions(x, func...): the callback; maps.Keys(x): its use
+		var cb *ast.FuncLit
+		for _, a := range v.Args {
+			if fl, ok := a.(*ast.FuncLit); ok {
+				cb = fl
+			}
+		}
+		if cb != nil {
+			shape = blockShape(tp, cb.Body.List)
+		} else if len(stack) > 0 {
+			switch p := stack[len(stack)-1].(type) {
+			case *ast.CallExpr:
+				shape = "arg of " + exprString(tp, p.Fun)
+			case *ast.AssignStmt:
+				shape = "assigned"
+			case *ast.ReturnStmt:
+				shape = "returned"
+			default:
+				shape = fmt.Sprintf("in %T", p)
+			}
+		}
+	}
+	if dead {
+		shape = "dead:" + shape
+	}
+	sorted := false
+	ast.Inspect(fd, func(n ast.Node) bool {
+		c, ok := n.(*ast.CallExpr)
+		if !ok || c.Pos() <= site.Pos() {
+			return true
+		}
+		switch exprString(tp, c.Fun) {
+		case "sort.Strings", "sort.Slice", "sort.SliceStable", "sort.Sort", "sort.Stable", "slices.Sort", "slices.SortFunc", "slices.SortStableFunc":
+			sorted = true
+		}
+		return true
+	})
+	return shape, sorted
+}
+
+func blockShape(tp *typedPkg, stmts []ast.Stmt) string {
+	var parts []string
+	for _, st := range stmts {
+		switch v := st.(type) {
+		case *ast.AssignStmt:
+			kind := "assign"
+			for _, l := range v.Lhs {
+				if ix, ok := l.(*ast.IndexExpr); ok {
+					if tv, ok := tp.info.Types[ix.X]; ok && tv.Type != nil {
+						if _, isMap := tv.Type.Underlying().(*types.Map); isMap {
+							kind = "mapset"
+						}
+					}
+				}
+			}
+			if len(v.Rhs) == 1 {
+				if c, ok := v.Rhs[0].(*ast.CallExpr); ok {
+					if id, ok := c.Fun.(*ast.Ident); ok && id.Name == "append" {
+						kind = "append"
+					}
+				}
+			}
+			parts = append(parts, kind)
+		case *ast.ExprStmt:
+			if c, ok := v.X.(*ast.CallExpr); ok {
+				parts = append(parts, "call:"+exprString(tp, c.Fun))
+			} else {
+				parts = append(parts, "expr")
+			}
+		case *ast.IfStmt:
+			cond := "cond"
+			if id, ok := v.Cond.(*ast.Ident); ok && id.Name == "false" {
+				cond = "false"
+			}
+			s := "if(" + cond + "){" + blockShape(tp, v.Body.List) + "}"
+			if v.Else != nil {
+				if eb, ok := v.Else.(*ast.BlockStmt); ok {
+					s += "else{" + blockShape(tp, eb.List) + "}"
+				} else {
+					s += "else{" + blockShape(tp, []ast.Stmt{v.Else}) + "}"
+				}
+			}
+			parts = append(parts, s)
+		case *ast.ReturnStmt:
+			parts = append(parts, "return")
+		case *ast.BranchStmt:
+			parts = append(parts, strings.ToLower(v.Tok.String()))
+		case *ast.RangeStmt:
+			parts = append(parts, "loop{"+blockShape(tp, v.Body.List)+"}")
+		case *ast.ForStmt:
+			parts = append(parts, "loop{"+blockShape(tp, v.Body.List)+"}")
+		case *ast.SwitchStmt, *ast.TypeSwitchStmt:
+			parts = append(parts, "switch")
+		case *ast.DeclStmt:
+			parts = append(parts, "decl")
+		case *ast.IncDecStmt:
+			parts = append(parts, "assign")
+		default:
+			parts = append(parts, fmt.Sprintf("%T", v))
+		}
+	}
+	return strings.Join(parts, ";")
 }
 
 // anchored files whose explicit panic( calls are listed (C07 + C14 anchors that this family models)
